@@ -504,13 +504,16 @@ def _check_brackets(run: Run, tt) -> None:
     """tokens_till: counters per bracket kind."""
     inc = {}
     dec = {}
+    steps = []
     for n in own_nodes(tt):
         if isinstance(n, ast.AugAssign) and isinstance(n.target, ast.Name) and isinstance(n.value, ast.Constant) and n.value.value == 1:
-            # find the governing comparison t.string == "<bracket>"
+            # find the governing comparison t.string == "<bracket>" (or t.string in ("(", "[", "{"))
             cond = _governing_string_test(n)
             if cond is None:
                 continue
-            (inc if isinstance(n.op, ast.Add) else dec)[cond] = n.target.id
+            for c_ in (cond if isinstance(cond, tuple) else (cond,)):
+                (inc if isinstance(n.op, ast.Add) else dec)[c_] = n.target.id
+            steps.append(n)
     if not inc and not dec:
         inc, dec = _delta_counters(tt)
     if not inc and not dec:
@@ -520,7 +523,22 @@ def _check_brackets(run: Run, tt) -> None:
         ok = o in inc and c in dec and inc[o] == dec[c]
         run.check(ok, "C03.R4", tt, tt.node, f"'{o}' increments and '{c}' decrements the same counter", f"bracket pair {o}{c} is not tracked by one counter (open -> {inc.get(o)}, close -> {dec.get(c)}): the extent of a lambda containing such brackets is mis-measured")
     counters = set(inc.values())
-    run.check(len(counters) == 3, "C03.R4", tt, tt.node, "three independent counters", f"{len(counters)} distinct counters for three bracket kinds")
+    # (one counter per kind or one nesting depth for all: the source compiled, so brackets are properly nested either way)
+    # the text of a token says "bracket" only for operator tokens: the literal part of an f-string (FSTRING_MIDDLE on 3.12)
+    # can be exactly "(" - a string containing a bracket, which the scan has to step over
+    from ..terms import TermCtx as _T0
+
+    fa0 = _T0(run.model, max_depth=1).analysis(tt)
+    for n in steps:
+        is_op = False
+        for a, pol in Facts(fa0, n).atoms:
+            if isinstance(a, ast.Compare) and len(a.ops) == 1 and isinstance(a.left, ast.Attribute) and a.left.attr in ("type", "exact_type"):
+                rhs = ast.unparse(a.comparators[0])
+                if isinstance(a.ops[0], ast.Eq) and pol and (rhs.split(".")[-1] == "OP" or a.left.attr == "exact_type"):
+                    is_op = True
+                if isinstance(a.ops[0], ast.In) and pol and isinstance(a.comparators[0], (ast.Tuple, ast.List, ast.Set)) and all(ast.unparse(e_).split(".")[-1] == "OP" or a.left.attr == "exact_type" for e_ in a.comparators[0].elts):
+                    is_op = True
+        run.check(is_op, "C03.R4", tt, n, "bracket text is counted for operator tokens only", "the text of a token is counted as a bracket whatever the token's type: the literal part of an f-string that is exactly one bracket (f\"({e.pt}\" on Python 3.12) moves the depth, so the extent of the lambda overruns or ends early - a documented layout (strings containing brackets) is no longer recovered", "if t.type == tokenize.OP: ..")
     # stop test requires every counter zero: facts at the generator's bare `return`
     from ..terms import TermCtx as _T
 
@@ -696,6 +714,8 @@ def _governing_string_test(n: ast.AST):
     for a in ancestors(n):
         if isinstance(a, ast.If) and child in a.body:
             t = a.test
+            if isinstance(t, ast.Compare) and len(t.ops) == 1 and isinstance(t.ops[0], ast.In) and isinstance(t.comparators[0], (ast.Tuple, ast.List, ast.Set)) and t.comparators[0].elts and all(isinstance(e_, ast.Constant) and isinstance(e_.value, str) for e_ in t.comparators[0].elts) and "string" in ast.unparse(t.left):
+                return tuple(e_.value for e_ in t.comparators[0].elts)
             if isinstance(t, ast.Compare) and isinstance(t.ops[0], ast.Eq) and isinstance(t.comparators[0], ast.Constant) and isinstance(t.comparators[0].value, str):
                 left = t.left
                 if isinstance(left, ast.Name):
